@@ -2,6 +2,8 @@ package main
 
 import (
 	"fmt"
+	"os"
+	"go/token"
 	"go/types"
 	"strings"
 
@@ -31,6 +33,9 @@ func (ex *Exec) callWithValues(fr *frame, st *State, reach *Term, c *ssa.CallCom
 	case *Closure:
 		return ex.callFunc(fr, st, reach, f.fn, f.bindings, args, instr, exits, c)
 	case *Term:
+		if fv, ok := ex.funcVals[f.Op]; ok && f.IsLeaf() {
+			return ex.callWithValues(fr, st, reach, c, fv, args, instr, exits)
+		}
 		// dynamic function value: contract of its named function type, if any
 		if n, ok := types.Unalias(c.Value.Type()).(*types.Named); ok && n.Obj().Pkg() != nil {
 			if fc, ok := ex.eng.cs.FuncTypes[n.Obj().Pkg().Path()+"."+n.Obj().Name()]; ok {
@@ -63,6 +68,11 @@ func (ex *Exec) callFunc(fr *frame, st *State, reach *Term, fn *ssa.Function, fr
 	name := fn.String()
 	if m, ok := models[name]; ok {
 		return m(ex, fr, st, reach, args, instr), reach
+	}
+	if o := fn.Origin(); o != nil {
+		if m, ok := genericModels[o.String()]; ok {
+			return m(ex, fr, st, reach, args, instr, fn), reach
+		}
 	}
 	if fn.Synthetic != "" && strings.HasPrefix(fn.Synthetic, "bound method wrapper") {
 		// $bound: free[0] is the receiver; forward
@@ -419,10 +429,18 @@ type modSet struct {
 	nonfresh map[string]bool // components with a write to an object that may have existed before the scanned region
 	scope    map[int]bool    // loop scan: block indices of the loop body (nil: whole function)
 	scopeFn  *ssa.Function
+	ctx      string
 }
 
 func newModSet() *modSet {
 	return &modSet{comps: map[string]Sort{}, iters: map[string]bool{}, nonfresh: map[string]bool{}}
+}
+
+func (m *modSet) setAll(why string) {
+	if !m.all && os.Getenv("GOVC_DEBUG") != "" {
+		fmt.Fprintln(os.Stderr, "scan: everything may be modified:", why, m.ctx)
+	}
+	m.all = true
 }
 
 func (m *modSet) add(name string, s Sort) { m.comps[name] = s; m.nonfresh[name] = true }
@@ -487,7 +505,9 @@ func (m *modSet) freshRoot(v ssa.Value) bool {
 	}
 }
 
-func (ex *Exec) loopMods(fr *frame, fn *ssa.Function, body map[int]bool) *modSet {
+func (ex *Exec) loopMods(fr *frame, fn *ssa.Function, body map[int]bool, st *State) *modSet {
+	ex.scanState = st
+	defer func() { ex.scanState = nil }()
 	ms := newModSet()
 	ms.scope = body
 	ms.scopeFn = fn
@@ -655,7 +675,7 @@ func (ex *Exec) scanInstr(fr *frame, in ssa.Instruction, ms *modSet, depth int, 
 			}
 		}
 		if _, isParam := x.Addr.(*ssa.Parameter); isParam {
-			ms.all = true
+			ms.setAll(fmt.Sprintf("site1 %v", ""))
 			return
 		}
 		c, s := ex.cellComp(t)
@@ -702,7 +722,7 @@ func (ex *Exec) scanInstr(fr *frame, in ssa.Instruction, ms *modSet, depth int, 
 			}
 		}
 	case *ssa.Go, *ssa.Send, *ssa.Select:
-		ms.all = true
+		ms.setAll(fmt.Sprintf("site2 %v", ""))
 	case *ssa.Defer:
 		ex.scanCall(fr, &x.Call, ms, depth, visiting)
 	case *ssa.Call:
@@ -710,7 +730,82 @@ func (ex *Exec) scanInstr(fr *frame, in ssa.Instruction, ms *modSet, depth int, 
 	}
 }
 
+// scanValue resolves a value statically for the modification scan (nil when unknown).
+func (ex *Exec) scanValue(fr *frame, v ssa.Value) Value {
+	if fr != nil {
+		if ev, ok := fr.env[v]; ok {
+			if t, isT := ev.(*Term); isT && t.IsLeaf() {
+				if fv, ok := ex.funcVals[t.Op]; ok {
+					return fv
+				}
+			}
+			return ev
+		}
+	}
+	switch x := v.(type) {
+	case *ssa.FreeVar:
+		if fr != nil {
+			for i, f := range fr.fn.FreeVars {
+				if f == x && i < len(fr.free) {
+					return fr.free[i]
+				}
+			}
+		}
+	case *ssa.MakeClosure:
+		cl := &Closure{fn: x.Fn.(*ssa.Function)}
+		for _, b := range x.Bindings {
+			cl.bindings = append(cl.bindings, ex.scanValue(fr, b))
+		}
+		return cl
+	case *ssa.Function:
+		return &FuncVal{fn: x}
+	case *ssa.Alloc:
+		// a captured cell: its content if there is exactly one store into it
+		var stored ssa.Value
+		n := 0
+		if refs := x.Referrers(); refs != nil {
+			for _, r := range *refs {
+				if s, ok := r.(*ssa.Store); ok && s.Addr == x {
+					stored = s.Val
+					n++
+				}
+			}
+		}
+		if n == 1 {
+			return &scanCell{content: ex.scanValue(fr, stored)}
+		}
+		return &scanCell{}
+	case *ssa.UnOp:
+		if x.Op == token.MUL {
+			switch c := ex.scanValue(fr, x.X).(type) {
+			case *scanCell:
+				return c.content
+			case *Term:
+				// a real cell reference: read it in the state the scan is run for
+				if ex.scanState != nil {
+					if _, isFn := types.Unalias(x.Type()).Underlying().(*types.Signature); isFn {
+						v := ex.loadAddr(ex.scanState, ex.cellAddr(c, x.Type()))
+						if v.IsLeaf() {
+							if fv, ok := ex.funcVals[v.Op]; ok {
+								return fv
+							}
+						}
+					}
+				}
+			}
+		}
+	}
+	return nil
+}
+
+// scanCell: statically resolved content of a captured variable (modification scan only).
+type scanCell struct{ content Value }
+
 func (ex *Exec) scanCall(fr *frame, c *ssa.CallCommon, ms *modSet, depth int, visiting map[*ssa.Function]bool) {
+	ms.ctx = c.String()
+	if fr != nil {
+		ms.ctx += " in " + fr.fn.String()
+	}
 	if c.IsInvoke() {
 		it := types.Unalias(c.Value.Type())
 		key := ifaceKey(it, c.Method.Name())
@@ -734,7 +829,7 @@ func (ex *Exec) scanCall(fr *frame, c *ssa.CallCommon, ms *modSet, depth int, vi
 			ex.scanCallee(fr, impl, nil, c, ms, depth, visiting, true)
 			return
 		}
-		ms.all = true
+		ms.setAll(fmt.Sprintf("site3 %v", ""))
 		return
 	}
 	var fn *ssa.Function
@@ -753,40 +848,21 @@ func (ex *Exec) scanCall(fr *frame, c *ssa.CallCommon, ms *modSet, depth int, vi
 			ms.add(vv, ArraySort(SInt, ArraySort(ks, vs)))
 			ms.add(l, ArraySort(SInt, ex.vc.IntSort()))
 		case "copy":
-			ms.all = true
+			ms.setAll(fmt.Sprintf("site4 %v", ""))
 		}
 		return
 	case *ssa.Function:
 		fn = v
-	case *ssa.MakeClosure:
-		fn = v.Fn.(*ssa.Function)
-		if fr != nil {
-			if cl, ok := fr.env[v].(*Closure); ok {
-				free = cl.bindings
-			}
-		}
 	default:
-		if fr != nil {
-			var val Value
-			if ev, ok := fr.env[c.Value]; ok {
-				val = ev
-			} else if fv, ok := c.Value.(*ssa.FreeVar); ok {
-				for i, f := range fr.fn.FreeVars {
-					if f == fv && i < len(fr.free) {
-						val = fr.free[i]
-					}
-				}
-			}
-			switch cv := val.(type) {
-			case *Closure:
-				fn, free = cv.fn, cv.bindings
-			case *FuncVal:
-				fn = cv.fn
-			}
+		switch cv := ex.scanValue(fr, c.Value).(type) {
+		case *Closure:
+			fn, free = cv.fn, cv.bindings
+		case *FuncVal:
+			fn = cv.fn
 		}
 	}
 	if fn == nil {
-		ms.all = true
+		ms.setAll(fmt.Sprintf("site5 %v", ""))
 		return
 	}
 	ex.scanCallee(fr, fn, free, c, ms, depth, visiting, false)
@@ -800,6 +876,12 @@ func (ex *Exec) scanCallee(fr *frame, fn *ssa.Function, free []Value, c *ssa.Cal
 		}
 		ms.add("alive", aliveSort)
 		return
+	}
+	if o := fn.Origin(); o != nil {
+		if mm, ok := genericModelMods[o.String()]; ok {
+			mm(ex, ms, fn)
+			return
+		}
 	}
 	if fn.Synthetic != "" && strings.HasPrefix(fn.Synthetic, "bound method wrapper") {
 		if mo, ok := fn.Object().(*types.Func); ok {
@@ -818,12 +900,12 @@ func (ex *Exec) scanCallee(fr *frame, fn *ssa.Function, free []Value, c *ssa.Cal
 		ms.add("alive", aliveSort)
 		return
 	}
-	if len(fn.Blocks) == 0 || depth > 6 {
-		ms.all = true
+	if len(fn.Blocks) == 0 || depth > 20 {
+		ms.setAll(fmt.Sprintf("site6 %v", ""))
 		return
 	}
 	if !ex.canInlineStatic(fn) {
-		ms.all = true
+		ms.setAll(fmt.Sprintf("site7 %v", ""))
 		return
 	}
 	var argVals []Value
@@ -835,23 +917,7 @@ func (ex *Exec) scanCallee(fr *frame, fn *ssa.Function, free []Value, c *ssa.Cal
 		}
 		_ = off
 		for _, a := range c.Args {
-			if v, ok := fr.env[a]; ok {
-				argVals = append(argVals, v)
-			} else if fv, ok := a.(*ssa.FreeVar); ok {
-				var val Value
-				for i, f := range fr.fn.FreeVars {
-					if f == fv && i < len(fr.free) {
-						val = fr.free[i]
-					}
-				}
-				argVals = append(argVals, val)
-			} else if mc, ok := a.(*ssa.MakeClosure); ok {
-				argVals = append(argVals, &Closure{fn: mc.Fn.(*ssa.Function)})
-			} else if f, ok := a.(*ssa.Function); ok {
-				argVals = append(argVals, &FuncVal{fn: f})
-			} else {
-				argVals = append(argVals, nil)
-			}
+			argVals = append(argVals, ex.scanValue(fr, a))
 		}
 	}
 	ex.scanFunc(fn, argVals, free, ms, depth+1, visiting)
@@ -871,7 +937,7 @@ func (ex *Exec) contractMods(fc *FuncContract, fn *ssa.Function, ms *modSet) {
 	if fc.HasMod {
 		for _, name := range ex.modifiesComps(fc, fn) {
 			if name == "*" {
-				ms.all = true
+				ms.setAll(fmt.Sprintf("site8 %v", ""))
 				return
 			}
 			ms.add(name, ex.compSorts[name])
@@ -887,7 +953,7 @@ func (ex *Exec) contractMods(fc *FuncContract, fn *ssa.Function, ms *modSet) {
 	// no modifies clause: infer from the body
 	sub := ex.eng.inferredMods(ex, fn)
 	if sub.all {
-		ms.all = true
+		ms.setAll(fmt.Sprintf("site9 %v", ""))
 		return
 	}
 	for k, s := range sub.comps {
